@@ -34,7 +34,7 @@ def extra_referrers(rng, g, k):
     for i in range(k):
         if not anyt:
             break
-        kind = rng.choice(["surround", "inside", "connector", "connector-corner", "polyline", "use", "reuse", "expr", "surround2", "text-rel"])
+        kind = rng.choice(["surround", "inside", "connector", "connector-corner", "polyline", "use", "reuse", "expr", "surround2", "text-rel", "shifted", "clipped"])
         eid = "x%d" % i
         if kind in ("surround", "surround2"):
             ts = rng.sample(anyt, min(len(anyt), 1 if kind == "surround" else 2))
@@ -69,6 +69,19 @@ def extra_referrers(rng, g, k):
             t = rng.choice([e for e in anyt if e.shape != "g"] or anyt)
             s = '<reuse id="%s" href="#%s" x="3" y="4"/>' % (eid, t.id)
             deps = [t.id]
+        elif kind == "shifted":
+            # plain numeric geometry plus an individual dx / dy (consumed on resolution), and an unrelated attribute that
+            # makes the element wait for its target
+            t = rng.choice(anyt)
+            s = '<rect id="%s" x="%d" y="%d" width="6" height="4"%s%s rx="{{#%s~w / 100}}"/>' % (
+                eid, rng.randint(-20, 20), rng.randint(-20, 20), rng.choice(['', ' dx="%d"' % rng.randint(3, 15)]), rng.choice(['', ' dy="%d"' % rng.randint(-15, -3)]), t.id)
+            deps = [t.id]
+        elif kind == "clipped":
+            t = rng.choice(anyt)
+            cid = "cp%d" % i
+            out.append((cid, '  <clipPath id="%s"><rect xy="#%s|h 1" wh="10"/></clipPath>' % (cid, t.id), [t.id], "clipPath"))
+            s = '<rect id="%s" x="%d" y="%d" width="100" height="100" clip-path="url(#%s)"/>' % (eid, rng.randint(-50, 0), rng.randint(-50, 0), cid)
+            deps = [cid]
         elif kind == "expr":
             t = rng.choice(anyt)
             s = '<rect id="%s" xy="{{#%s~x2 + 1}} {{#%s~cy}}" wh="{{#%s~w / 2 + 1}} 2"/>' % (eid, t.id, t.id, t.id)
@@ -81,7 +94,7 @@ def extra_referrers(rng, g, k):
     # second level: elements positioned against one of the referrers above (the referrer is then itself a target which may be
     # registered but unresolved when it is looked up)
     for j, (xid, _, _, xkind) in enumerate(list(out)):
-        if xkind in ("text-rel",) or rng.random() < 0.4:
+        if xkind in ("text-rel", "clipPath") or rng.random() < (0.1 if xkind in ("shifted", "clipped") else 0.4):
             continue
         yid = "y%d" % j
         form = rng.choice(["xy-rel", "cxy-loc", "surround", "expr", "connector"])
